@@ -106,7 +106,10 @@ CLAIMED = {
              "continuation (unrelated design, tops without / with the offending module, retry with the same and the default elaborator, repair "
              "and retry). Each call is paired with what a fresh process returns for the design as it is then; Trace_Fail decides the contract "
              "(returns only what a fresh process returns; unrelated designs unaffected; raises only the fresh error or the original failure) "
-             "and Trace_Elab validates the fail / refail hook events against ElabSched.",
+             "and Trace_Elab validates the fail / refail / circular hook events against ElabSched. Further failure sources: a circular hierarchy (the "
+             "scheduler's own refusal; MC_ElabSched_cycle with PROPERTY EveryCallEnds - termination under weak fairness), a failure at export (an "
+             "un-exportable parameter value on a shared call object), a design fault first met inside pdk.compile of a list; and in every second history "
+             "the designer edits a module the failed call left unfinished (model: Edit action, invariant EditsAreChecked).",
         note="Trusted: driver incl. fork-based fresh references, error signature = exception type + last message line, TLC. Injection positions are "
              "sampled in quick (6 per module), exhaustive in thorough.",
         ref="6 C08", technique="TLA+ state machines (ElabSched, GenCache) with fault actions + fault-sequence enumeration replayed + TLC trace validation",
